@@ -107,7 +107,7 @@ def _root_.HsVerif.Model.SysAct.noVC : SysAct → Bool
   | .deliver _ e => e.noVC
   | _ => true
 
-/-- every replica's signalled views followed by its queued view-change events are `2, …, view` -/
+/-- every replica's signalled views followed by its queued view-change events are the views it entered, climbing from view 1 to its view -/
 def SigInv (σ : SysState) (V : Nat → List Nat) : Prop :=
   ∀ i s, σ.reps.lookup i = some s → VCInv (V i) s
 
@@ -176,7 +176,7 @@ theorem sysStepV_inv (k : Keys) (C : SysCfg) (σ : SysState) (a : SysAct) (ha : 
         simp only [lookup_setKV_self] at hj
         cases hj
         have := h j s hl
-        exact ⟨this.wait, this.pos, this.all⟩
+        exact ⟨this.wait, this.pos, this.all, this.climb⟩
       · simp only [lookup_setKV_ne _ _ _ _ hji] at hj
         exact h j sj hj
   | forge a =>
